@@ -20,17 +20,39 @@ class InjectedIOError(OSError):
 
 
 class Injector:
+  """Numbers the events of one call and fires one crash.
 
-  def __init__(self, crash_at=None, prefix=0, mode='crash'):
+  Default mode: `write()` goes straight through to the file (a crash lets `prefix` bytes of the
+  crashing write through), closing a file is not an event.
+
+  Hard-kill mode (`hard=True`): models a user-space buffered writer in a process that is killed.
+  Bytes handed to `write()` of a wrapped file are only *pending*; they reach the real file at
+  `flush()` / `close()`.  `close()` of a writable wrapped file is itself a numbered event ('close')
+  that fires before the real close.  When the crash fires (at any event) every open wrapped file
+  keeps only the first `keep_frac` of its pending bytes, all real handles are closed, and nothing
+  the unwinding code does afterwards reaches the disk any more (the process is dead).
+  """
+
+  def __init__(self, crash_at=None, prefix=0, mode='crash', hard=False, keep_frac=0.0):
     self.n = 0
     self.crash_at = crash_at
     self.prefix = prefix
     self.mode = mode
+    self.hard = hard
+    self.keep_frac = keep_frac
     self.events = []      # (kind, info)
+    self.pending_at = []  # hard mode: pending (not yet durable) bytes when event i was reached
     self.fired = False
+    self.dead = False
+    self.open_files = []
 
   def _raise(self):
     self.fired = True
+    if self.hard:
+      self.dead = True
+      for f in list(self.open_files):
+        f._die(self.keep_frac)
+      raise Crash()
     if self.mode == 'ioerror':
       raise InjectedIOError('injected I/O error')
     raise Crash()
@@ -40,6 +62,8 @@ class Injector:
     i = self.n
     self.n += 1
     self.events.append((kind, info))
+    if self.hard:
+      self.pending_at.append(sum(f.pending_len() for f in self.open_files))
     if i == self.crash_at:
       self._raise()
 
@@ -57,31 +81,109 @@ class Injector:
 
 
 class WFile:
-  """Proxy of a writable file object: every `write` is a crash point with byte prefixes."""
+  """Proxy of a writable file object: every `write` is a crash point with byte prefixes
+  (default mode) / a buffered write whose bytes are durable only after flush or close (hard mode)."""
 
-  def __init__(self, f, inj, name):
+  def __init__(self, f, inj, name, flush_on_write=False):
     self._f = f
     self._inj = inj
     self._name = name
+    self._flush_on_write = flush_on_write
+    self._pending = []
+    self._created = False
+    self._closed = False
+    if inj.hard:
+      inj.open_files.append(self)
+
+  # -- default mode ---------------------------------------------------------------------------
+  def _through(self, data):
+    r = self._f.write(data)
+    if self._flush_on_write:
+      self._f.flush()
+    return r
+
+  # -- hard mode ------------------------------------------------------------------------------
+  def pending_len(self):
+    return sum(len(x) for x in self._pending)
+
+  def _joined(self):
+    if not self._pending:
+      return b''
+    return (b'' if isinstance(self._pending[0], (bytes, bytearray, memoryview)) else '').join(
+        bytes(x) if isinstance(x, (bytearray, memoryview)) else x for x in self._pending)
+
+  def _drain(self):
+    data = self._joined()
+    self._pending = []
+    if len(data):
+      self._f.write(data)
+
+  def _die(self, keep_frac):
+    """The process dies: a prefix of the pending bytes is all that ever reaches the file."""
+    data = self._joined()
+    self._pending = []
+    k = int(len(data) * keep_frac)
+    try:
+      if k:
+        self._f.write(data[:k])
+      self._f.close()
+    finally:
+      self._closed = True
+      if self in self._inj.open_files:
+        self._inj.open_files.remove(self)
 
   def write(self, data):
-    return self._inj.write('write', self._f.write, data, self._name)
-
-  def close(self):
-    return self._f.close()
+    if not self._inj.hard:
+      return self._inj.write('write', self._through, data, self._name)
+    if self._inj.dead or self._closed:
+      return len(data)
+    self._inj.event('write', (self._name, len(data)))
+    if not self._created:
+      # the file exists (empty) as soon as the writer has opened it
+      self._created = True
+      self._f.write(data[:0])
+      self._f.flush()
+    self._pending.append(data)
+    return len(data)
 
   def flush(self):
+    if self._inj.hard:
+      if self._inj.dead or self._closed:
+        return None
+      self._drain()
     return self._f.flush()
+
+  def close(self):
+    if not self._inj.hard:
+      return self._f.close()
+    if self._inj.dead or self._closed:
+      return None
+    self._inj.event('close', self._name)      # may kill the process: pending bytes are lost
+    self._drain()
+    self._closed = True
+    if self in self._inj.open_files:
+      self._inj.open_files.remove(self)
+    return self._f.close()
 
   def __enter__(self):
     return self
 
   def __exit__(self, *exc):
-    self._f.close()
+    self.close()
     return False
 
   def __getattr__(self, k):
     return getattr(self._f, k)
+
+
+def hard_points(events, pending_at, fracs=(0.0, 0.5)):
+  """Hard-kill crash points worth running: those where some bytes are still pending (everywhere
+  else a hard kill leaves the same directory as the ordinary crash at that event)."""
+  pts = []
+  for c in range(len(events)):
+    if c < len(pending_at) and pending_at[c] > 0:
+      pts += [(c, f) for f in fracs]
+  return pts
 
 
 def prefixes(m):
